@@ -180,11 +180,14 @@ def walk (m : LMap) (start : Option Id) (steps : Int) (label : Option String) (n
       | some (nxt, mk) => go n nxt mk
   go steps.natAbs start false
 
+/-- value of a string of ASCII digits (`int("007") = 7`) -/
+def digitsVal (ds : List Char) : Nat := ds.foldl (fun a c => a * 10 + (c.toNat - '0'.toNat)) 0
+
 /-- a resolved identifier that Python's `int()` reads as a negative number (`-3`); only the plain
     ASCII spelling is modelled -/
 def negInt? (s : String) : Option Nat :=
   match s.toList with
-  | '-' :: ds => if !ds.isEmpty && ds.all Char.isDigit then some (String.ofList ds).toNat! else none
+  | '-' :: ds => if !ds.isEmpty && ds.all Char.isDigit then some (digitsVal ds) else none
   | _ => none
 
 /-- `get_revisions(id_)` for a single string.  A bare negative number (`-2`, `label@-2`) means
@@ -247,7 +250,7 @@ def matchSymRel (s : List Char) : Option (Option String × Int) :=
         let digits := ds.takeWhile Char.isDigit
         if digits.isEmpty then none
         else
-          let n := (String.ofList digits).toNat!
+          let n := digitsVal digits
           some (if sign == '-' then - (n : Int) else (n : Int))
       else none
     | [] => none
